@@ -458,7 +458,18 @@ func run(r *harness.Run) {
 					}
 				})
 			} else {
-				tam("body-added", 1, func(a int) { w.Body = []byte(`{}`); w.CType = sp("application/json") })
+				tam("body-added", 4, func(a int) {
+					switch a {
+					case 0:
+						w.Body, w.CType = []byte(`{}`), sp("application/json")
+					case 1: // a body injected in transit, with no content type at all
+						w.Body, w.CType = []byte(`{"injected":true}`), nil
+					case 2:
+						w.Body, w.CType = []byte("not json"), nil
+					case 3:
+						w.Body, w.CType = []byte(`{"injected":true}`), sp("text/plain")
+					}
+				})
 			}
 			// header-level
 			_, ps := refParse(w.Auth[0])
